@@ -40,7 +40,7 @@ def trafo_table(scen):
         'Dependency': {'classname': 'DependencyTransformation', 'module': 'loki.transformations.build_system',
                        'options': {'suffix': scen['dep_suffix'], 'module_suffix': '_MOD'}},
         'Duplicate': {'classname': 'DuplicateKernel', 'module': 'loki.transformations.dependency',
-                      'options': {'duplicate_kernels': scen['dup_kernels'], 'duplicate_suffix': '_dupl',
+                      'options': {'duplicate_kernels': scen['dup_kernels'], 'duplicate_suffix': scen.get('dup_suffix', '_dupl'),
                                   'duplicate_subgraph': scen['dup_subgraph']}},
         'Remove': {'classname': 'RemoveKernel', 'module': 'loki.transformations.dependency',
                    'options': {'remove_kernels': scen['rem_kernels']}},
@@ -120,6 +120,7 @@ class PlanEngine(Engine):
             'dep_suffix': g.pick('depsuf', ['_LOKI', '_test']),
             'dup_kernels': g.sample('dupk', kernels, min(len(kernels), 1)) if kernels else [],
             'dup_subgraph': g.flip('dupsub'),
+            'dup_suffix': g.pick('dupsuf', ['_dupl', '_dupl', '_DUPL', '_Dup2']),
             'rem_kernels': g.sample('remk', kernels, min(len(kernels), 1)) if kernels else [],
             'rem_kernels2': g.sample('remk2', kernels, min(len(kernels), 1)) if kernels else [],
             'header_file': g.choose('hdr', max(1, len(proj['files']))) if g.flip('usehdr', 1, 4) else None,
@@ -349,16 +350,24 @@ class PlanEngine(Engine):
         if sorted(set(lists['LOKI_SOURCES_TO_APPEND'])) != sorted(set(written)):
             a, w = set(lists['LOKI_SOURCES_TO_APPEND']), set(written)
             sig = None
+            dsuf = scenario.get('dup_suffix', '_dupl').lower() + '.'
             if not (w - a) and 'Duplicate' in pipe and 'ModuleWrap' in pipe and \
-                    all('_dupl.' in n for _, n in a - w):
+                    all(dsuf in n.lower() for _, n in a - w):
                 sig = 'append-differs:duplicated-free-kernel-then-modulewrap'
             elif not (w - a) and ('Dependency' in pipe or 'ModuleWrap' in pipe) and (a - w):
                 sig = 'append-differs:rename-pipeline-plans-file-conversion-does-not-write'
             elif not (a - w) and ('Dependency' in pipe or 'ModuleWrap' in pipe) and (w - a):
                 sig = 'append-differs:rename-pipeline-conversion-writes-unplanned-file'
-            elif 'Duplicate' in pipe and not any('_dupl.' in n for _, n in (a ^ w)) and \
+            elif 'Duplicate' in pipe and not any(dsuf in n.lower() for _, n in (a ^ w)) and \
                     self._dup_kernel_configured(scenario):
                 sig = 'append-differs:duplicated-kernel-has-item-config'
+            if sig is None:
+                # not one of the recognised shapes: identify the input by its layout/config features
+                from sim.engines.itemhist import ItemHistoryEngine  # pylint: disable=import-outside-toplevel
+                steps = ['DuplicateSub' if (x == 'Duplicate' and scenario.get('dup_subgraph')) else x for x in pipe]
+                sig = 'append-differs:features=' + ItemHistoryEngine.features(
+                    {'proj': scenario['proj'], 'cfg': scenario['cfg'], 'steps': steps,
+                     'dup_kernels': scenario['dup_kernels']})
             run.violate('append-differs', f'plan says append {sorted(a - w)[:4]} which the conversion did not write; '
                                           f'conversion wrote {sorted(w - a)[:4]} which the plan does not list', sig=sig)
             return
